@@ -496,6 +496,94 @@ def check_key_nonce(cv, s, dg, kind="object"):
     return None
 
 
+class _PatchedUrandom:
+    """os.urandom replaced by a scripted source for the duration of a `with` block (single-threaded stages only): the DEFAULT
+    entropy source of the library is os.urandom, looked up at call time, so the scalars drawn without an entropy argument can
+    be predicted too.  `.calls` counts the reads."""
+
+    def __init__(self, stream):
+        self.ent = Replay(stream)
+
+    def __enter__(self):
+        self.real = os.urandom
+        os.urandom = self.ent
+        return self.ent
+
+    def __exit__(self, *a):
+        os.urandom = self.real
+
+
+def check_unusable_nonce(cv, s, kind="object"):
+    """the nonce drawn from the caller's script makes s = 0 (digest crafted as e = -d*r mod n): C03 says RSZeroError; C17 says the
+    signature is a function of the script - so nothing else may be consulted (os.urandom is watched) and no signature made
+    with another nonce may come back.  Round-8 seed C17-mut53-1 retried with the default source."""
+    from ecdsa import SigningKey
+    from ecdsa.ecdsa import RSZeroError
+    n = cv.order
+    pair = lambda r, s_, o: (r, s_)
+    w1 = spec_randrange(n, s)
+    w2 = spec_randrange(n, s[w1[1]:]) if w1 else None
+    if not (w1 and w2):
+        return None
+    d, k = w1[0], w2[0]
+    try:
+        sk = SigningKey.generate(cv, entropy=Replay(s))
+        r, _ = sk.sign_digest(b"\x01", entropy=Replay(s[w1[1]:]), sigencode=pair)     # r depends on the nonce only
+    except Exception as ex:  # noqa
+        return {"got": "exception " + common.errname(ex) + " while preparing"}
+    e = (-d * r) % n
+    dg = e.to_bytes(cv.baselen, "big")
+    fn, ent = source(kind, s[w1[1]:])
+    watch = _PatchedUrandom(b"\x5a" * 4096)
+    try:
+        with watch as w:
+            got = sk.sign_digest(dg, entropy=fn, sigencode=pair)
+        got = {"returned": list(got)}
+    except RSZeroError:
+        got = "RSZeroError"
+    except Exception as ex:  # noqa
+        got = "exception " + common.errname(ex)
+    if got != "RSZeroError" or watch.ent.sizes or ent.off != w2[1]:
+        return {"got": got, "default_source_reads": watch.ent.sizes, "consumed": ent.off, "expected_consumed": w2[1], "digest": dg.hex(),
+                "secret": d, "nonce_from_script": k,
+                "why": "the nonce drawn from the script gives s = 0: RSZeroError, nothing but the script consulted"}
+    return None
+
+
+def check_default_source(cv, s, what):
+    """scalars drawn WITHOUT an entropy argument come from os.urandom by the same rejection sampling: with os.urandom scripted,
+    SigningKey.generate(curve), ECDH(curve).generate_private_key() and the nonce of sign_digest(digest) are the first accepted
+    chunks of the script.  Round-8 seed C17-mut53-2 drew the ECDH scalar by modulo reduction of one oversized read."""
+    from ecdsa import SigningKey, ECDH
+    n = cv.order
+    pair = lambda r, s_, o: (r, s_)
+    w1 = spec_randrange(n, s)
+    if not w1:
+        return None
+    watch = _PatchedUrandom(s)
+    try:
+        with watch as w:
+            if what == "SigningKey.generate":
+                d = SigningKey.generate(cv).privkey.secret_multiplier
+            elif what == "ECDH.generate_private_key":
+                e = ECDH(curve=cv)
+                e.generate_private_key()
+                d = e.private_key.privkey.secret_multiplier
+            else:
+                sk = SigningKey.from_secret_exponent(7 % n or 1, cv)
+                dg = b"\x01" * min(20, cv.baselen)
+                r, sg = sk.sign_digest(dg, sigencode=pair)
+                d = (int.from_bytes(dg, "big") + r * sk.privkey.secret_multiplier) * pow(sg, -1, n) % n
+    except IndexError:
+        return {"got": "script exhausted", "requests": watch.ent.sizes, "expected": w1[0], "expected_consumed": w1[1]}
+    except Exception as ex:  # noqa
+        return {"got": "exception " + common.errname(ex) + ": " + str(ex)[:200]}
+    if (d, watch.ent.off) != w1 or any(z != clen(n) for z in watch.ent.sizes):
+        return {"got": d, "consumed": watch.ent.off, "requests": watch.ent.sizes, "expected": w1[0], "expected_consumed": w1[1],
+                "why": "value is not the first accepted chunk of the (default) source, %d bytes per iteration" % clen(n)}
+    return None
+
+
 def search(ctx):
     from ecdsa import util, SigningKey
     from ecdsa.curves import curves
@@ -570,6 +658,25 @@ def search(ctx):
             if obs and obs != "exhausted":
                 ctx.violation({"input": {"kind": "key+nonce", "curve": cv.name, "stream": s.hex(), "digest": dg.hex(), "source": kind}, "observed": obs,
                                "expected": "key = first accepted chunk, nonce = first accepted chunk of the rest, same stream gives the same signature"})
+        # 3b. a nonce drawn from the script that is unusable (s = 0); 3c. the default source (os.urandom), scripted
+        for rep in range(2):
+            s = bytes(rng.getrandbits(8) for _ in range(12 * L))
+            if rep == 1:
+                s = chunk_with_top(n, (1 << blen(n)) - 1, -1) + chunk_with_top(n, n - 2, 0) + chunk_with_top(n, n, 0) + s
+            kind = SOURCE_KINDS[(rep + len(cv.name) + 1) % len(SOURCE_KINDS)]
+            n_eval += 1
+            obs = check_unusable_nonce(cv, s, kind)
+            ctx.hist("search.unusable-nonce", "ok" if obs is None else "violation")
+            if obs:
+                ctx.violation({"input": {"kind": "unusable-nonce", "curve": cv.name, "stream": s.hex(), "source": kind}, "observed": obs,
+                               "expected": "RSZeroError; the caller's script is the only entropy consulted"})
+            for what in ("SigningKey.generate", "ECDH.generate_private_key", "sign_digest nonce"):
+                n_eval += 1
+                obs = check_default_source(cv, s, what)
+                ctx.hist("search.default-source", what + (" ok" if obs is None else " violation"))
+                if obs:
+                    ctx.violation({"input": {"kind": "default-source", "curve": cv.name, "stream": s.hex(), "what": what}, "observed": obs,
+                                   "expected": "first accepted chunk of the scripted os.urandom (rejection sampling, fresh bytes per iteration)"})
     # 4. seed helpers: deterministic, in range, equal to the independent reading
     orders = [n for _, n in curve_orders()] + [2, 3, 4, 5, 255, 256, 257, 258, 65537, (1 << 64) - 1, (1 << 64), (1 << 64) + 1]
     for seed in seeds(ctx):
@@ -621,6 +728,12 @@ def replay(rec):
         from ecdsa import curves
         obs = check_key_nonce([c for c in curves.curves if c.name == i["curve"]][0], bytes.fromhex(i["stream"]), bytes.fromhex(i["digest"]), i.get("source", "object"))
         return obs is not None and obs != "exhausted"
+    if i["kind"] in ("unusable-nonce", "default-source"):
+        from ecdsa import curves
+        cv = [c for c in curves.curves if c.name == i["curve"]][0]
+        if i["kind"] == "unusable-nonce":
+            return check_unusable_nonce(cv, bytes.fromhex(i["stream"]), i.get("source", "object")) is not None
+        return check_default_source(cv, bytes.fromhex(i["stream"]), i["what"]) is not None
     if i["kind"] == "seed":
         import ast
         ref = ref_trytryagain if i["fn"].endswith("trytryagain") else ref_overshoot
